@@ -146,6 +146,10 @@ impl Op {
             Op::Splice(..) => "splice",
             Op::ShrinkTo(_) => "shrink_to",
             Op::ExtendIter(..) => "extend_iter",
+            Op::Alt(k, inner) if *k >= 100 => match **inner {
+                Op::Splice(..) => "splice_source_panics",
+                _ => "extend_iter_source_panics",
+            },
             Op::Alt(3, _) => "push_with",
             Op::Alt(6, inner) => match **inner {
                 Op::Drain(..) => "drain_forget",
@@ -157,7 +161,7 @@ impl Op {
     /// is the operation replayed on the Lean model (correspondence), or checked by the oracles only?
     pub fn modelled(&self) -> bool {
         // (an iterator that is LEAKED instead of dropped: oracles only)
-        !matches!(self, Op::Alt(6, inner) if !matches!(**inner, Op::Drain(..)))
+        !matches!(self, Op::Alt(6, inner) if !matches!(**inner, Op::Drain(..))) && !matches!(self, Op::Alt(k, _) if *k >= 100)
     }
     /// does the operation take the vector by value?
     pub fn consumes(&self) -> bool {
@@ -183,6 +187,7 @@ impl Op {
             Op::ExtendIter(ids, h, None) => format!(" src={} hint={h}", csv(ids)),
             Op::ExtendIter(ids, h, Some(l)) => format!(" src={} hint={h} lie={l} maxcap={}", csv(ids), isize::MAX as usize / std::mem::size_of::<E>()),
             Op::Alt(1, inner) => format!("{} via=try", inner.args()),
+            Op::Alt(k, inner) if *k >= 100 => format!("{} source_panics_at={}", inner.args(), *k - 100),
             Op::Alt(_, inner) => inner.args(),
             Op::Splice(a, b, ids, k, h, None) => format!(" {a} {b} src={} pulls={} hint={h}", csv(ids), script_text(k)),
             Op::Splice(a, b, ids, k, h, Some(l)) => format!(" {a} {b} src={} pulls={} hint={h} lie={l} maxcap={}", csv(ids), script_text(k), isize::MAX as usize / std::mem::size_of::<E>()),
@@ -403,6 +408,14 @@ pub fn std_apply(v: &mut Vec<u64>, op: &Op, o: &[Oc]) -> Result<(String, usize),
                 other => unreachable!("no leaking route for {:?}", other),
             }
         }
+        Op::Alt(k, inner) if *k >= 100 => {
+            // the source iterator panics at its `next()` call number k - 100
+            drop(next);
+            set_src_panic_at(Some(*k as usize - 100));
+            let r = std_apply(v, inner, o);
+            set_src_panic_at(None);
+            return r;
+        }
         Op::Alt(5, _) => {
             // the semantic route: the predicate is computed from the pair it is handed
             let mut n = 0usize;
@@ -419,7 +432,7 @@ pub fn std_apply(v: &mut Vec<u64>, op: &Op, o: &[Oc]) -> Result<(String, usize),
             return std_apply(v, inner, o);
         }
         Op::ExtendIter(ids, hint, lie) => {
-            let r = catch_unwind(AssertUnwindSafe(|| v.extend(Hinted { inner: ids.clone().into_iter(), cap: *hint, lie: *lie })));
+            let r = catch_unwind(AssertUnwindSafe(|| v.extend(Hinted { inner: ids.clone().into_iter(), cap: *hint, lie: *lie, panic_at: src_panic_at(), calls: 0 })));
             if r.is_err() { "!".to_string() } else { String::new() }
         }
         Op::ExtendWithinClone(a, b) => {
@@ -463,7 +476,7 @@ pub fn std_apply(v: &mut Vec<u64>, op: &Op, o: &[Oc]) -> Result<(String, usize),
             // the same (possibly lying) source; `Vec`'s own `Splice::drop` may panic with "capacity overflow"
             let ys = RefCell::new(Vec::new());
             let r = catch_unwind(AssertUnwindSafe(|| {
-                let mut sp = v.splice(*a..*b, Hinted { inner: ids.clone().into_iter(), cap: *hint, lie: *lie });
+                let mut sp = v.splice(*a..*b, Hinted { inner: ids.clone().into_iter(), cap: *hint, lie: *lie, panic_at: src_panic_at(), calls: 0 });
                 for c in pulls {
                     let y = if *c == b'f' { sp.next() } else { sp.next_back() };
                     ys.borrow_mut().push(y.map_or("none".to_string(), |x| x.to_string()));
@@ -478,16 +491,34 @@ pub fn std_apply(v: &mut Vec<u64>, op: &Op, o: &[Oc]) -> Result<(String, usize),
     Ok((r, consumed.get()))
 }
 
+thread_local! {
+    static SRC_PANIC_AT: Cell<Option<usize>> = const { Cell::new(None) };
+}
+pub fn src_panic_at() -> Option<usize> {
+    SRC_PANIC_AT.with(|c| c.get())
+}
+pub fn set_src_panic_at(k: Option<usize>) {
+    SRC_PANIC_AT.with(|c| c.set(k));
+}
+
 /// an iterator whose `size_hint` lower bound is capped (an honest under-estimate) or, with `lie`, a fixed
 /// number whatever is left (a lying source; `Iterator::size_hint` is only a hint, a wrong one must be safe)
 pub struct Hinted<I> {
     pub inner: I,
     pub cap: usize,
     pub lie: Option<usize>,
+    /// the `next()` call with this index (0-based) PANICS instead of yielding (the item stays with the source)
+    pub panic_at: Option<usize>,
+    pub calls: usize,
 }
 impl<I: ExactSizeIterator> Iterator for Hinted<I> {
     type Item = I::Item;
     fn next(&mut self) -> Option<I::Item> {
+        let k = self.calls;
+        self.calls += 1;
+        if self.panic_at == Some(k) {
+            std::panic::panic_any(CbPanic);
+        }
         self.inner.next()
     }
     fn size_hint(&self) -> (usize, Option<usize>) {
@@ -594,6 +625,7 @@ macro_rules! impl_vecdyn {
                 String::new()
             }
             Op::PopIf => opt_text($s.pop_if($T::pred)),
+            Op::Alt(k, _) if *k >= 100 => $s.extra($op),
             Op::Alt(k, inner) => {
                 match (*k, &**inner) {
                     (1, Op::Push(id)) => {
@@ -846,14 +878,18 @@ macro_rules! impl_extra {
                         self.shrink_to(*n);
                         String::new()
                     }
+                    Op::Alt(k, inner) if *k >= 100 => {
+                        set_src_panic_at(Some(*k as usize - 100));
+                        self.extra(inner)
+                    }
                     Op::ExtendIter(ids, hint, lie) => {
                         let src: Vec<T> = ids.iter().map(|i| T::make(*i)).collect();
-                        self.extend(Hinted { inner: src.into_iter(), cap: *hint, lie: *lie });
+                        self.extend(Hinted { inner: src.into_iter(), cap: *hint, lie: *lie, panic_at: src_panic_at(), calls: 0 });
                         String::new()
                     }
                     Op::Splice(a, b, ids, pulls, hint, lie) => {
                         let src: Vec<T> = ids.iter().map(|i| T::make(*i)).collect();
-                        let mut sp = self.splice(form_range(*a, *b, self.len()), Hinted { inner: src.into_iter(), cap: *hint, lie: *lie });
+                        let mut sp = self.splice(form_range(*a, *b, self.len()), Hinted { inner: src.into_iter(), cap: *hint, lie: *lie, panic_at: src_panic_at(), calls: 0 });
                         let mut ys = Vec::new();
                         for c in pulls {
                             ys.push(match if *c == b'f' { sp.next() } else { sp.next_back() } {
